@@ -329,6 +329,12 @@ func TestC05(t *testing.T) {
 				{mkReq(opCreateFile, "/w/up/a.bin"), wrReq(pa[:1000]), wrReq(pa[1000:3000])},
 				{mkReq(opOpenFile, "/ro.bin"), rdcReq(0, 3000), rdReq(5, 2000)}}},
 		}
+		// a transfer that failed before (client 0's download is cut by a write error) must not poison later uploads
+		scs = append(scs, c12Scenario{name: "failed-transfer-then-two-uploads", allow: true, reset: resetUp, maxB: 1, failAt: map[int]int64{0: 1000},
+			files: map[string][]byte{"w/up/a.bin": pa[:3000], "w/up/b.bin": pb[:2500]}, clients: [][]Req{
+				{mkReq(opOpenFile, "/ro.bin"), rdcReq(0, 3000)},
+				{mkReq(opCreateFile, "/w/up/a.bin"), wrReq(pa[:3000])},
+				{mkReq(opCreateFile, "/w/up/b.bin"), wrReq(pb[:2500])}}})
 		bound := 1
 		if r.Thorough() {
 			bound = 2
